@@ -80,9 +80,13 @@ class G:
                 return "write(%s)" % self.any_expr(2)
             if k < 0.28:
                 return "toa(%s)" % self.any_expr(2)
-            if k < 0.40 and k >= 0.36:
-                f = r.choice(UFUNS)
-                return r.choice(["%s(%s)" % (f, self.any_expr(1)), "%s = %s(%s)" % (r.choice(NAMES), f, self.expr(1))])
+            if k < 0.46 and k >= 0.36:
+                f, ar = r.choice(UFUNS)
+                if f == "fsel":
+                    args = "%s, %s, %s" % (r.choice(ARRS + STRS), self.expr(0), self.expr(0))
+                else:
+                    args = ", ".join(self.any_expr(1) for _ in range(ar))
+                return r.choice(["%s(%s)" % (f, args), "%s = %s(%s)" % (r.choice(NAMES), f, args)])
             if k < 0.30:
                 g = r.choice(NAMES)
                 return r.choice(["%s = toa(%s)" % (g, self.any_expr(1)), "%s = aton(%s)" % (g, r.choice(['"12"', '"2.5"', '"q"', "sa"])),
@@ -90,7 +94,7 @@ class G:
             if k < 0.36 and k >= 0.30:
                 return "aton(%s)" % r.choice(['"12"', '"-7"', '"1.5"', '"4e1"', '"x"', '""', "sa", "sb", "ga", '"9223372036854775808"',
                                               "(%s + %s)" % (r.choice(['"1"', '"2"']), r.choice(['"0"', '".5"', '"e"']))])
-            if k < 0.70:
+            if k < 0.74:
                 g = r.choice(NAMES)
                 if r.random() < 0.3:
                     return "%s = %s + 1" % (g, g)
@@ -122,8 +126,9 @@ PRELUDE = ["ga = 3", "gb = 10", "gc = 2.5", "gd = 0", "ge = 7", "gt = true", "gf
            "xa = [4, 5, 6, 7]", "xb = [[1, 2], \"s\", 3]", "sa = \"hello\"", "sb = \"\"",
            # user functions of the proven class: one parameter, the body a pure expression of it and of globals
            "fsq = (x) -> x * x", "flg = (v) -> [v > gb, -v, #xa]", "fid = (p) -> p",
-           "fix = (i) -> xa[i] + ga", "fmix = (q) -> (q + gc) * (q - 1) / gd"]
-UFUNS = ["fsq", "flg", "fid", "fix", "fmix"]
+           "fix = (i) -> xa[i] + ga", "fmix = (q) -> (q + gc) * (q - 1) / gd",
+           "fadd = (a, b) -> a + b * ga", "fsel = (c, i, j) -> [c[i], c[j], i < j]", "fk = () -> gb + ge"]
+UFUNS = [("fsq", 1), ("flg", 1), ("fid", 1), ("fix", 1), ("fmix", 1), ("fadd", 2), ("fsel", 3), ("fk", 0)]
 
 
 def sessions(seed, n):
